@@ -14,8 +14,9 @@ obs[1] = ref result    vs driver line `spec`    (Lean spec ≡ Python reference:
 obs[2] = Safe / inFragment, Python mirror vs Lean
 obs[3..6] = the same two pairs for the SAME prepared query evaluated again: after the data object was changed in place
          (case["ds2"]) and on another Graph / Dataset object with the same graph names (case["ds3"])
-obs[-2] = the `lazy` / `_vars` annotations on rdflib's tree vs the Lean model of `analyse` / `_addVars` (Analysis.lean)
-obs[-1] = impl result vs the Lean evaluator on the tree re-annotated by the Lean analysis (`amodel`)
+obs[-3] = the `lazy` / `_vars` annotations on rdflib's tree vs the Lean model of `analyse` / `_addVars` (Analysis.lean)
+obs[-2] = impl result vs the Lean evaluator on the tree re-annotated by the Lean analysis (`amodel`)
+obs[-1] = rdflib's own translated tree vs the Lean model of the translation run on the generator's syntax tree (`translate`)
 viol   = impl ≠ ref   (the property itself, decided without Lean; tags reeval-… / other-… for the re-evaluations)
 """
 import atexit
@@ -472,6 +473,12 @@ def run_impl(case):
     except Exception as e:
         annot = f"annot-error {type(e).__name__}"
     obs += [annot, obs_pairs[0][0]]
+    # rdflib's own translated tree (translateGroupGraphPattern, simplify, analyse, _addVars) vs the Lean model of the
+    # translation (Translate.lean) run on the generator's syntax tree
+    try:
+        obs.append(G.canon_tree_text(G.parse_sx(alg)))
+    except Exception as e:
+        obs.append(f"tree-error {type(e).__name__}")
     st["annotated_nodes"] = max(0, len(annot.split(" ")) - 1)
     st["lazy_joins"] = annot.count("J1")
     st["strict_joins"] = annot.count("J0")
@@ -511,7 +518,7 @@ def model_lines(case):
     n = G.nvars(q)
     alg = _algebra_text(G.to_sparql(q))
     lines = ["ds " + G.sx_dataset(ds), f"model {n} {alg}", f"spec {n} {G.sx_query(q)}", f"safe {alg}", f"annot {alg}",
-             f"amodel {n} {alg}"]
+             f"amodel {n} {alg}", f"translate {G.sx_query(q)}"]
     if "ds2" in case and "ds3" in case:
         for k in ("ds2", "ds3"):
             lines += ["ds " + G.sx_dataset(case[k]), f"model {n} {alg}", f"spec {n} {G.sx_query(q)}"]
@@ -554,11 +561,11 @@ def _recanon(line, star):
 def select_model_obs(case, out):
     q = case["q"]
     star = q["form"] == "select" and q["proj"] is None
-    # out: 0 ds, 1 model, 2 spec, 3 safe, 4 annot, 5 amodel [, 6 ds2, 7 model, 8 spec, 9 ds3, 10 model, 11 spec]
+    # out: 0 ds, 1 model, 2 spec, 3 safe, 4 annot, 5 amodel, 6 translate [, 7 ds2, 8 model, 9 spec, 10 ds3, 11 model, 12 spec]
     sel = [_recanon(out[1], star), _recanon(out[2], star), out[3]]
-    if len(out) >= 12:
-        sel += [_recanon(out[7], star), _recanon(out[8], star), _recanon(out[10], star), _recanon(out[11], star)]
-    sel += [out[4], _recanon(out[5], star)]
+    if len(out) >= 13:
+        sel += [_recanon(out[8], star), _recanon(out[9], star), _recanon(out[11], star), _recanon(out[12], star)]
+    sel += [out[4], _recanon(out[5], star), out[6]]
     return sel
 
 
